@@ -763,3 +763,35 @@ def shrink_side_agreement(prog: Program) -> List[Instance]:
                             f"read-shrink rescaling composed on the {sd} (output/source side), as validated by _can_paste" if ok else
                             f"`{short(n, 60)}` composes the read-shrink rescaling on the {sd} while _can_paste validates it on the {side}: the translation is not divided by the shrink factor, regions are displaced", fi.where(n)))
     return out
+
+
+def gcp_view_state(prog: Program) -> List[Instance]:
+    """A GCPGeoBox is a *view*: control-point mapping composed with a pixel affine that crop / pad / zoom /
+    flip update. Every member the plain GeoBox computes from its affine must, in GCPGeoBox, read the view
+    affine too (directly or through members that do); a member that only consults the shared mapping
+    answers for the original image instead of the view."""
+    from .valueobj import fields_read
+
+    out: List[Instance] = []
+    gb = prog.classes.get("geobox:GeoBox")
+    gcp = prog.classes.get("gcp:GCPGeoBox")
+    if gb is None or gcp is None:
+        return [Instance("R-SIBLING", "gcp:GCPGeoBox#view-state", UNDET, "GeoBox / GCPGeoBox not found", "")]
+    for name, m in sorted(gcp.methods.items()):
+        if name in ("__repr__", "__str__", "__init__"):
+            continue
+        g = gb.find_method(name)
+        if g is None or g is m:
+            continue
+        if "_affine" not in fields_read(gb, g)[0]:
+            continue
+        rets = [r for r in walk_own(m.node) if isinstance(r, ast.Return)]
+        if rets and all(isinstance(r.value, ast.Constant) for r in rets):
+            out.append(Instance("R-SIBLING", f"{m.qual}#view-state", OK, "constant answer, independent of the view", m.where(), nontrivial=False))
+            continue
+        reads = fields_read(gcp, m)[0]
+        ok = "_affine" in reads
+        out.append(Instance("R-SIBLING", f"{m.qual}#view-state", OK if ok else BAD,
+                            f"reads the view affine (state read: {sorted(reads)})" if ok else
+                            f"GeoBox.{name} is computed from the affine, but GCPGeoBox.{name} reads only {sorted(reads)}: after crop/zoom/flip it still answers for the uncropped, unscaled image", m.where()))
+    return out
